@@ -33,7 +33,7 @@ def configs():
     return [(m, n, o) for m in METHODS for n in range(0, NMAX[m] + 1) for o in ORDERS]
 
 
-def gen_menu(method):
+def gen_menu(method, honesty=False):
     """user-supplied generators (thorough tier): (label, constructor kwargs for Derivative)"""
     out = []
     if method in ('central', 'forward', 'backward'):
@@ -41,12 +41,22 @@ def gen_menu(method):
             for sr in (2, 1.6, 3):
                 out.append(('Max', dict(base_step=bs, num_steps=15, step_ratio=sr)))
         out.append(('Max', dict(base_step=0.25, num_steps=25, step_ratio=2)))
+        if honesty:     # long and steep: no accuracy claim is possible, but the estimate must stay honest (C02)
+            out.append(('Max', dict(step_ratio=4.0, num_steps=20)))
     else:
         for ne in (2, 5):
             out.append(('Min', dict(num_extrap=ne)))
     for st in (0.1, 1e-2):
         out.append(('scalar', dict(step=st, num_extrap=5)))
     return out
+
+
+def quick_gen_menu(method, honesty=False):
+    """user generators of the menu that also run in the quick tier (on a rotating slice of programs)"""
+    if method in ('central', 'forward', 'backward'):
+        return [('Max', dict(base_step=0.25, num_steps=15, step_ratio=2))] + (
+            [('Max', dict(step_ratio=4.0, num_steps=20))] if honesty else [])
+    return [('Min', dict(num_extrap=5))]
 
 
 def quick_points(ctx):
@@ -119,7 +129,7 @@ def run_config(fun, cfg, gen, pi, direct_fx):
     """Execute one configuration at one point.  Returns dict with observed and oracle quantities."""
     import numdifftools.finite_difference as fdm
     method, n, order = cfg
-    fdm.FD_RULES.clear()
+    fw.fresh_library_state()
     res = dict(status='ok')
     try:
         with warnings.catch_warnings():
